@@ -1084,11 +1084,12 @@ pub fn quiescence_scenario(opts: ExecOpts) -> BoxedStrategy<Scenario> {
                     main.push(Op::Spawn { prog: p, tx: vec![], rx: vec![sel(idx, rx_table.len())] });
                     rx_table.remove(idx);
                     let mut ops = ops.clone();
-                    // the only consumer of a broadcast stream may add a stream while the others run
-                    // (its conversions are dropped so that the handle keeps the add_stream method);
+                    // a consumer of a broadcast stream (the only one of its stream or, since the
+                    // repair of D8, one of several) may add a stream while the others run (its
+                    // conversions are dropped so that the handle keeps the add_stream method);
                     // the new stream is not consumed before the probes
-                    if cons.len() == 1 && q.flavour == Flavour::Broadcast && adds[(s + ci) % adds.len()] {
-                        ops.retain(|o| !matches!(o, Op::IntoSingle { .. } | Op::WithCloneRx { .. }));
+                    if q.flavour == Flavour::Broadcast && adds[(s + ci) % adds.len()] {
+                        ops.retain(|o| !matches!(o, Op::IntoSingle { .. }));
                         let at = (add_pos[(s + ci) % add_pos.len()] as usize).min(ops.len());
                         ops.insert(at, Op::AddStream { rx: 0 });
                     }
